@@ -45,7 +45,7 @@ AnyOK(m)  == m # INVALID                 \* mask non-zero: unclaimed frames reac
 Node0(hbT, hc) ==
   [mode |-> INIT, hbT |-> hbT, hbRem |-> hbT,
    hc |-> [k \in 1..Len(hc) |-> [node |-> hc[k][1], time |-> hc[k][2], on |-> hc[k][2] > 0, rem |-> 0, st |-> INVALID, ev |-> 0]],
-   v8 |-> 0, r8 |-> 0, err1 |-> FALSE]
+   v8 |-> 0, r8 |-> 0, err1 |-> FALSE, app |-> <<>>]
 
 R(n, out) == [n |-> n, out |-> out]
 Cb2(name, a) == <<"cb", name, a>>
@@ -110,6 +110,14 @@ HbTick(n) == IF n.hbRem = 0 THEN R(n, <<>>)
              ELSE R([n EXCEPT !.hbRem = n.hbT], IF NmtOK(n.mode) THEN <<HbFrame(n)>> ELSE <<>>)
 HbWrite(n, time) == [n EXCEPT !.hbT = time, !.hbRem = time]     \* restarts the period from the write; 0 stops
 
+\* ---- application timers (they survive every NMT reset) ----------------------------------
+\* app: Seq of [h, rem, cyc]   h = handle, rem = ticks until due (0 = dead), cyc = period (0 = one-shot)
+AppCreate(n, h, start, cyc) == [n EXCEPT !.app = Append(SelectSeq(@, LAMBDA t : t.h # h), [h |-> h, rem |-> IF start = 0 THEN cyc ELSE start, cyc |-> cyc])]
+AppTick(app) == [ts |-> SelectSeq([k \in 1..Len(app) |-> IF app[k].rem > 1 THEN [app[k] EXCEPT !.rem = @ - 1] ELSE [app[k] EXCEPT !.rem = app[k].cyc]], LAMBDA t : t.rem > 0),
+                 out |-> LET due == SelectSeq(app, LAMBDA t : t.rem = 1) IN [k \in 1..Len(due) |-> <<"fire", due[k].h>>]]
+\* timer pool occupancy: armed actions of the stack + application timers
+Armed(n) == (IF n.hbRem > 0 /\ n.mode # INVALID THEN 1 ELSE 0) + Cardinality({k \in 1..Len(n.hc) : n.hc[k].rem > 0}) + Len(n.app)
+
 \* ---- tick: every armed action counts down; those due run in this processing step -------
 RECURSIVE HcTicks(_, _, _)
 HcTicks(hc, k, acc) == IF k > Len(hc) THEN acc
@@ -118,7 +126,8 @@ Tick(n) ==
   IF n.mode = INVALID THEN R(n, <<>>)               \* CONodeStop cleared the stack timers
   ELSE LET a == HbTick(n)
            b == HcTicks(a.n.hc, 1, [hc |-> <<>>, out |-> <<>>])
-       IN R([a.n EXCEPT !.hc = b.hc], a.out \o b.out)
+           c == AppTick(n.app)
+       IN R([a.n EXCEPT !.hc = b.hc, !.app = c.ts], a.out \o b.out \o c.out)
 
 \* ---- minimal SDO server: expedited access to the configuration objects ---------------------
 SdoTx == 1408 + NodeId
